@@ -196,7 +196,7 @@ theorem IsZT.mulN {x : ℕ → K} {r : ZR K} (h : IsZT x r) :
 theorem toPS_one : toPS ([1] : List K) = 1 := by simp [toPS_cons]
 theorem toPS_one_sub : toPS ([1, -1] : List K) = 1 - X := by simp [toPS_cons]; ring
 
-theorem isZT_imp (d : ℤ) (hd : 0 ≤ d) :
+theorem isZT_imp_nonneg (d : ℤ) (hd : 0 ≤ d) :
     IsZT (fun n : ℕ => (Base.imp d : Base K).val n) (ztBase (.imp d)) := by
   refine ⟨by simp [ztBase, hd], ?_, by simp [ztBase, hd]⟩
   simp only [ztBase, hd, ↓reduceIte, toPS_one, one_mul, toPS_pshift, mul_one]
@@ -206,7 +206,7 @@ theorem isZT_imp (d : ℤ) (hd : 0 ≤ d) :
   apply propext
   constructor <;> intro h <;> omega
 
-theorem isZT_step (d : ℤ) (hd : 0 ≤ d) :
+theorem isZT_step_nonneg (d : ℤ) (hd : 0 ≤ d) :
     IsZT (fun n : ℕ => (Base.step d : Base K).val n) (ztBase (.step d)) := by
   refine ⟨by simp [ztBase, hd], ?_, by simp [ztBase, hd]⟩
   simp only [ztBase, hd, ↓reduceIte, toPS_one, toPS_pshift, mul_one]
@@ -228,6 +228,25 @@ theorem isZT_one : IsZT (fun n : ℕ => (Base.one : Base K).val n) (ztBase .one)
     have h : (0:ℤ) ≤ (n:ℤ) + 1 := by omega
     simp [h]
 
+
+theorem isZT_imp (d : ℤ) : IsZT (fun n : ℕ => (Base.imp d : Base K).val n) (ztBase (.imp d)) := by
+  by_cases hd : 0 ≤ d
+  · exact isZT_imp_nonneg d hd
+  · refine ⟨by simp [ztBase, hd], ?_, by simp [ztBase, hd]⟩
+    ext n
+    have : ¬ ((n : ℤ) = d) := by omega
+    simp [ztBase, hd, coeff_toPS_mul, bsum, extZ, Base.val, this]
+
+theorem isZT_step (d : ℤ) : IsZT (fun n : ℕ => (Base.step d : Base K).val n) (ztBase (.step d)) := by
+  by_cases hd : 0 ≤ d
+  · exact isZT_step_nonneg d hd
+  · have h1 := isZT_one (K := K)
+    have e : (fun n : ℕ => (Base.step d : Base K).val n) = fun n : ℕ => (Base.one : Base K).val n := by
+      funext n
+      have : d ≤ (n : ℤ) := by omega
+      simp [Base.val, this]
+    rw [e]
+    simpa [ztBase, hd] using h1
 
 theorem rot_rec (cb sb : K) (h : cb ^ 2 + sb ^ 2 = 1) (n : ℕ) :
     (rotPow cb sb (n + 2)).1 = (cb + cb) * (rotPow cb sb (n + 1)).1 - (rotPow cb sb n).1 ∧
@@ -274,19 +293,19 @@ theorem isZT_sin (cb sb cc sc : K) (h : cb ^ 2 + sb ^ 2 = 1) :
     ring
 
 
-/-- side condition under which the closed form of a base sequence is claimed: delays are
-    non-negative (advances are finding F17); `cos b, sin b` lie on the unit circle -/
+/-- side condition under which the closed form of a base sequence is claimed:
+    `cos b, sin b` lie on the unit circle (impulses and steps: any integer delay or advance) -/
 def Base.ok : Base K → Prop
-  | .imp d => 0 ≤ d
-  | .step d => 0 ≤ d
+  | .imp _ => True
+  | .step _ => True
   | .one => True
   | .cos cb sb _ _ => cb ^ 2 + sb ^ 2 = 1
   | .sin cb sb _ _ => cb ^ 2 + sb ^ 2 = 1
 
 theorem isZT_base (b : Base K) (h : b.ok) : IsZT (fun n : ℕ => b.val n) (ztBase b) := by
   cases b with
-  | imp d => exact isZT_imp d h
-  | step d => exact isZT_step d h
+  | imp d => exact isZT_imp d
+  | step d => exact isZT_step d
   | one => exact isZT_one
   | cos cb sb cc sc => exact isZT_cos cb sb cc sc h
   | sin cb sb cc sc => exact isZT_sin cb sb cc sc h
@@ -725,9 +744,8 @@ theorem dftSum_single (m : ℕ) (y q : K) (N : ℕ) :
 section dftsound2
 variable [DecidableEq K]
 
-theorem dft_imp_sound (numeric : Bool) (t : CTerm K) (N : ℕ) (q : K) (hq : q ^ N = 1) (d : ℤ)
+theorem dft_imp_sound (numeric : Bool) (t : CTerm K) (N : ℕ) (q : K) (d : ℤ)
     (hb : t.base = .imp d)
-    (hok : ¬ (numeric = true ∧ (N : ℤ) < 2 * d) ∨ (t.p = 0 ∧ t.a = 1))
     (v : K) (hv : dftTerm numeric t N q = some v) :
     v = dftSum (fun n => t.val n) q N := by
   simp only [dftTerm, hb] at hv
@@ -742,15 +760,7 @@ theorem dft_imp_sound (numeric : Bool) (t : CTerm K) (N : ℕ) (q : K) (hq : q ^
     rw [dftSum_congr _ _ q N (fun n _ => hval n), dftSum_single]
     simp only [hr, and_self, ↓reduceIte, Option.some.injEq, hm] at hv ⊢
     rw [← hv]
-    by_cases hw : numeric = true ∧ (N : ℤ) < 2 * (m : ℤ)
-    · rcases hok with hok | ⟨hp, ha⟩
-      · exact absurd hw hok
-      · have hq0 : q ≠ 0 := by
-          intro h0; rw [h0, zero_pow (by omega)] at hq; exact zero_ne_one hq
-        simp only [hw, and_self, ↓reduceIte, hp, ha, powK_eq, pow_zero, zpowK_eq, one_zpow, mul_one,
-          one_pow]
-        rw [zpow_sub₀ hq0, zpow_natCast, zpow_natCast, hq, div_one]
-    · simp only [hw, ↓reduceIte, powK_eq, intK_eq, zpowK_eq, Int.cast_natCast, zpow_natCast]
+    simp only [powK_eq, intK_eq, zpowK_eq, Int.cast_natCast, zpow_natCast]
   · simp only [hr, ↓reduceIte, Option.some.injEq] at hv
     rw [← hv, dftSum_congr _ (fun _ => 0) q N (fun n hn => by
       have : ¬ ((n : ℤ) = d) := by omega
@@ -759,7 +769,6 @@ theorem dft_imp_sound (numeric : Bool) (t : CTerm K) (N : ℕ) (q : K) (hq : q ^
 /-- all terms of a signal: if the model returns a value it is the defining sum -/
 def dftOk (numeric : Bool) (N : ℕ) (t : CTerm K) : Prop :=
   match t.base with
-  | .imp d => ¬ (numeric = true ∧ (N : ℤ) < 2 * d) ∨ (t.p = 0 ∧ t.a = 1)
   | .step d => numeric = false → d.toNat ≤ N
   | _ => True
 
@@ -768,7 +777,7 @@ theorem dft_term_sound (numeric : Bool) (t : CTerm K) (N : ℕ) (q : K) (hq : q 
     (v : K) (hv : dftTerm numeric t N q = some v) :
     v = dftSum (fun n => t.val n) q N := by
   rcases hb : t.base with d | d | _ | _ | _
-  · exact dft_imp_sound numeric t N q hq d hb (by simpa [dftOk, hb] using hok) v hv
+  · exact dft_imp_sound numeric t N q d hb v hv
   · exact dft_steplike_sound numeric t N q hq h2 d.toNat (Or.inr ⟨d, hb, rfl⟩)
       (by simpa [dftOk, hb] using hok) v hv
   · exact dft_steplike_sound numeric t N q hq h2 0 (Or.inl ⟨hb, rfl⟩) (by simp) v hv
@@ -894,10 +903,9 @@ theorem bsum_add (c : List K) (u v : ℤ → K) (i : ℤ) :
   | cons c0 cs ih => simp only [bsum, ih]; ring
 
 /-- zero-input response: with `x[n] = 0` for n ≥ 0, `x[-1-i] = xic[i]`, `y[-1-i] = ic[i]`, the output of the
-    recursion for n ≥ 0 has the z-transform `iniNum / a` (the model of `zdomain_initial_response`),
-    provided the filter has no more numerator than denominator coefficients. -/
+    recursion for n ≥ 0 has the z-transform `iniNum / a` (the model of `zdomain_initial_response`). -/
 theorem initial_response_ps (b a ic xic : List K) (ha : a.headD 0 ≠ 0)
-    (hlen : a.length = ic.length + 1) (hb : b.length ≤ a.length) :
+    (hlen : a.length = ic.length + 1) :
     toPS a * PowerSeries.mk (fun n : ℕ => respY b a (negSeq xic) ic n) = toPS (iniNum b a ic xic) := by
   ext n
   rw [coeff_toPS_mul, coeff_toPS]
@@ -911,8 +919,8 @@ theorem initial_response_ps (b a ic xic : List K) (ha : a.headD 0 ≠ 0)
   have hrec := resp_recursion b a (negSeq xic) ic ha hlen n
   rw [hsplit, bsum_add, bsum_negSeq_pos, bsum_negSeq_pos] at hrec
   have hval : (iniNum b a ic xic).getD n 0 = dot (b.drop (n + 1)) xic - dot (a.drop (n + 1)) ic := by
-    simp only [iniNum, List.take_of_length_le hb]
-    by_cases hn : n < a.length - 1
+    simp only [iniNum]
+    by_cases hn : n < max a.length b.length - 1
     · rw [List.getD_eq_getElem _ _ (by simpa using hn)]; simp
     · rw [List.getD_eq_default _ _ (by simpa using hn)]
       rw [List.drop_eq_nil_of_le (by omega), List.drop_eq_nil_of_le (by omega)]
@@ -940,4 +948,60 @@ theorem ztSpecCheck_of_isZT (x : ℤ → K) (r : ZR K) (h : IsZT (fun n : ℕ =>
   exact firstDiff_self _ 0
 
 end specexec
+section seqfilter
+
+/-- a value list as a two-sided sequence: zero before the first sample and after the last -/
+def litZ (x : List K) : ℤ → K := fun i => if 0 ≤ i then x.getD i.toNat 0 else 0
+
+theorem lfilter_getD (b a x : List K) (n : ℕ) (hn : n < x.length) :
+    (lfilterPy b a x).getD n 0 = respY b a (litZ x) (List.replicate (a.length - 1) 0) n := by
+  have h0 : (0 : ℤ) ≤ (n : ℤ) := by omega
+  rw [List.getD_eq_getElem _ _ (by simpa [lfilterPy] using hn)]
+  simp only [lfilterPy, List.getElem_map, List.getElem_range, respY, h0, ↓reduceIte, Int.toNat_natCast]
+  rfl
+
+theorem litZ_causal (x : List K) (i : ℤ) (hi : i < 0) : litZ x i = 0 := by
+  have : ¬ (0 ≤ i) := by omega
+  simp [litZ, this]
+
+theorem litZ_append_zeros (x : List K) (k : ℕ) : litZ (x ++ List.replicate k 0) = litZ x := by
+  funext i
+  by_cases hi : 0 ≤ i
+  · simp only [litZ, hi, ↓reduceIte]
+    by_cases h1 : i.toNat < x.length
+    · rw [List.getD_eq_getElem _ _ (by simp; omega), List.getD_eq_getElem _ _ h1, List.getElem_append_left h1]
+    · rw [List.getD_eq_default x _ (by omega)]
+      by_cases h2 : i.toNat < (x ++ List.replicate k 0).length
+      · rw [List.getD_eq_getElem _ _ h2, List.getElem_append_right (by omega)]; simp
+      · rw [List.getD_eq_default _ _ (by omega)]
+  · simp [litZ, hi]
+
+theorem lfilter_recursion (b a x : List K) (ha : a.headD 0 ≠ 0) (n : ℕ) :
+    bsum a (respY b a (litZ x) (List.replicate (a.length - 1) 0)) n = bsum b (litZ x) n := by
+  have : a.length = (List.replicate (a.length - 1) (0 : K)).length + 1 := by
+    cases a with
+    | nil => simp at ha
+    | cons _ _ => simp
+  exact resp_recursion b a (litZ x) _ ha this n
+
+theorem lfilter_convolution (b a x : List K) (ha : a.headD 0 ≠ 0) (n : ℕ) (hn : n < x.length) :
+    (lfilterPy b a x).getD n 0 = ∑ p ∈ Finset.antidiagonal n, hCoeff b a p.1 * litZ x p.2 := by
+  have hl : a.length = (List.replicate (a.length - 1) (0 : K)).length + 1 := by
+    cases a with
+    | nil => simp at ha
+    | cons _ _ => simp
+  rw [lfilter_getD b a x n hn]
+  exact recursion_is_convolution' b a (litZ x) _ ha hl (by intro v hv; exact (List.mem_replicate.mp hv).2)
+    (litZ_causal x) n
+
+theorem convolve_getD (x h : List K) (hx : x ≠ []) (hh : h ≠ []) (n : ℕ)
+    (hn : n < x.length + (h.length - 1)) :
+    (convolvePy x h).getD n 0 = convAt h (litZ x) n := by
+  have e : convolvePy x h = lfilterPy h [1] (x ++ List.replicate (h.length - 1) 0) := by
+    simp [convolvePy, hx, hh]
+  rw [e, lfilter_getD _ _ _ n (by simpa using hn), litZ_append_zeros]
+  have h0 : (0 : ℤ) ≤ (n : ℤ) := by omega
+  simp [respY, h0, respRun, respStep, dot, convAt]
+
+end seqfilter
 end Lcapy.DT
